@@ -234,6 +234,10 @@ def sim_subclass():
             def set_fields(self, sim_flag=0, **kwargs):
                 super(SimParsingState, self).set_fields(**kwargs)
                 self.sim_flag = sim_flag
+                # a normalisation of its own, like the base class has for math_mode_delimiter:
+                # with flag 2, comments are off inside math mode
+                if sim_flag == 2 and self.in_math_mode:
+                    self.enable_comments = False
         _cls_cache['cls'] = SimParsingState
     return _cls_cache['cls']
 
